@@ -1,6 +1,6 @@
 """C04 - address and instance bytes: exact, local, mutually exclusive codec."""
 from symx import E, Case
-from harness.common import call
+from harness.common import call, address_classes
 
 import dali.frame as F
 import dali.address as A
@@ -145,7 +145,7 @@ def h_read(ctx, bits):
                   key="read/num:" + got)
     # mutual exclusion: every registered kind asked separately
     hits = []
-    for at in A.Address._addrtypes:
+    for at in address_classes():
         st2, r = call(at.from_frame, f)
         if st2 == "exc":
             ctx.fail("%s.from_frame raised %r" % (at.__name__, r), key="read/raised:" + at.__name__)
